@@ -17,7 +17,8 @@ import VaxisModel.Spec.Surface
     others as `i=g.w.st` joined by `,`, `-` if none) or `panic:explicit` / `panic:runtime`.
 
 `render SWxSH <nodes>` — paint a hand-built surface tree on a SW×SH screen. nodes as above but
-    `depth:col:row:z:w:h:len:cells` (len = buffer length) with the whole buffer `g.w.st,…` (`-` = empty).
+    `depth:col:row:z:w:h:len:cells` (len = buffer length) with the whole buffer `g.w.st,…` (`-` = empty;
+    `g.w.st*N` = a run of N equal cells).
     impl / model: changed screen cells `x,y,g,w,st` in (y,x) order (`-` if none) or `panic`.
 
 Verdicts are the C14 oracle (`Spec.Surface`) on the implementation's result only. -/
@@ -189,8 +190,18 @@ def drawVerdict (c : Ctx) (w : Widget) (impl : String) : String :=
 
 /-! ### render -/
 
+/-- One buffer token: `g.w.st` or a run `g.w.st*N`. -/
+def parseRun? (s : String) : Option (List Cell) :=
+  match s.splitOn "*" with
+  | [c] => (parseCell? c).map fun x => [x]
+  | [c, n] => do
+      let x ← parseCell? c
+      let n ← n.toNat?
+      some (List.replicate n x)
+  | _ => none
+
 def parseBuf? (s : String) : Option (List Cell) :=
-  if s = "-" then some [] else (s.splitOn ",").mapM parseCell?
+  if s = "-" then some [] else ((s.splitOn ",").mapM parseRun?).map List.flatten
 
 /-- Build the model tree and the spec tree from the pre-order node list. -/
 partial def buildTrees (nodes : List (Node × List Cell)) (depth : Nat) :
